@@ -86,7 +86,42 @@ def judge(data: bytes, cfg: dict, devs=None):
     return out, r
 
 
+def judge_socket(data: bytes, cfg: dict, chunk: int, bufsize: int):
+    """The slice clauses for a socket-backed reader (fixed recv chunks)."""
+    from pyubx2 import UBXReader
+    out, items = [], []
+    try:
+        rd = UBXReader(streams.ChunkSocket(data, chunk), bufsize=bufsize, **streams.cfg_kwargs(cfg, (lambda e: None) if cfg.get("handler") else None))
+        while len(items) <= len(data) + 4:
+            raw, _ = rd.read()
+            if raw is None:
+                break
+            items.append(raw)
+    except Exception:  # noqa: BLE001  (judged by C08 / C10)
+        pass
+    pos = 0
+    for raw in items:
+        i = data.find(raw, pos)
+        if i < 0:
+            where = "reordered_or_overlapping" if data.find(raw) >= 0 else "not_a_slice"
+            out.append((f"raw_{where}|socket", f"raw={raw.hex()[:60]} after={pos} chunk={chunk} bufsize={bufsize}"))
+            break
+        pos = i + len(raw)
+        if raw_class(raw) == 0:
+            out.append(("raw_bad_preamble|socket", f"raw={raw.hex()[:60]}"))
+    return out, items
+
+
+SOCK_UNIT = ("Uinf", "Remb", "N1", "Uack", "UinfBad", "R1")
+
+
 def replay_case(case):
+    if case.get("kind") == "sock":
+        return judge_socket(bytes.fromhex(case["stream"]), case["cfg"], case["chunk"], case["bufsize"])[0]
+    if case.get("kind") == "socklong":
+        unit = streams.seq_bytes(SOCK_UNIT)
+        data = b"\x00" * case["shift"] + unit * (2 * 4096 // len(unit) + 2)
+        return judge_socket(data, case["cfg"], case["chunk"], 4096)[0]
     if case.get("kind") == "sessions":
         a = engine.Acc()
         eval_block(("sessions", case["a"]), a)
@@ -132,6 +167,36 @@ def eval_block(block, acc):
                             acc.violation("raw_not_a_slice|second_socket_session", {"kind": "sessions", "a": a_tok, "b": b_tok, "chunk": chunk, "bufsize": bufsize}, f"raw={raw.hex()[:40]} not in this session's data")
                             break
                         pos = i + len(raw)
+        return
+    elif kind == "sock":
+        # sequences of <= 2 tokens through a socket: fixed recv chunks x receive buffer sizes
+        first = block[1]
+        for seq in [(first,)] + [(first, t) for t in streams.FRAME_TOKENS + streams.NOISE_TOKENS + streams.FRAG_TOKENS]:
+            data = streams.seq_bytes(seq)
+            for cfg in COVER[:2]:
+                for chunk in (1, 3, 7, 64):
+                    for bufsize in (4, 8, 16, 4096):
+                        out, items = judge_socket(data, cfg, chunk, bufsize)
+                        acc.evaluations += 1
+                        acc.transitions += len(items) + 1
+                        acc.outcomes[(len(items), ("socket",))] += 1
+                        for key, detail in out:
+                            acc.violation(key, {"kind": "sock", "stream": data.hex(), "cfg": cfg, "chunk": chunk, "bufsize": bufsize}, detail)
+        return
+    elif kind == "socklong":
+        # default receive buffer: a > 8 KiB stream of frames (some embedding foreign frames), every alignment
+        # of the 4096-byte marks relative to the frames (shift = 0 .. one unit)
+        unit = streams.seq_bytes(SOCK_UNIT)
+        for shift in range(block[1], len(unit), 16):
+            data = b"\x00" * shift + unit * (2 * 4096 // len(unit) + 2)
+            for chunk in (4096, 1000):
+                cfg = COVER[0]
+                out, items = judge_socket(data, cfg, chunk, 4096)
+                acc.evaluations += 1
+                acc.transitions += len(items) + 1
+                acc.outcomes[(min(len(items), 3), ("socket-long",))] += 1
+                for key, detail in out:
+                    acc.violation(key + "|default_bufsize", {"kind": "socklong", "shift": shift, "cfg": cfg, "chunk": chunk}, detail)
         return
     elif kind == "short":
         # one deviation: the i-th stream call answered short, for every i (token sequences <= 2)
@@ -199,6 +264,8 @@ def run_tier(tier, t0):
     blocks.append(("long",))
     blocks += [("short", f) for f in streams.FRAME_TOKENS]
     blocks += [("sessions", f) for f in ("Uack", "N1", "R1")]
+    blocks += [("sock", f) for f in streams.FRAME_TOKENS]
+    blocks += [("socklong", i) for i in range(16)]
     acc = engine.sweep(blocks, eval_block)
     engine.finish(
         PROP, tier, acc, t0, replay_case,
@@ -213,6 +280,7 @@ def run_tier(tier, t0):
             "io.BytesIO models the underlying stream; tell()==len(S) means no data left",
             "pynmeagps.NMEA_HDR defines the NMEA preambles",
             "an exception or livelock ends the run and is judged by C08, not here",
+            "socket ring: token sequences of <= 2 through fixed recv chunks 1,3,7,64 x bufsize 4,8,16,4096; a > 8 KiB stream at every alignment to the default 4096-byte buffer (slice clauses only; item equality with a file stream is C10's job)",
             "extra ring: every single short read (one stream call answered with 1-2 bytes although more data follows) on token sequences of <= 2",
         ],
         vacuity=[
